@@ -69,11 +69,29 @@ def eisa(f, rep):
         rep.ob('eisa-refuse', 'letter %d' % i, has(cmp('le', C(0x40), L[i])), 'letter %d below the name base is not refused' % i, sp=b['sp'])
     for i in range(3, 7):
         rep.ob('eisa-refuse', 'digit %d' % i, has(('call', 'is_digit', ('sel', ch, C(i)), C(16))), 'non-hex digit at position %d is not refused' % i, sp=b['sp'])
+    # ... and nothing else is refused: a valid identifier (3 letters at or above the base, 4 hex digits) must be accepted
+    expected = {cmp('eq', C(7), ('len', nm))} | {cmp('le', C(0x40), L[i]) for i in range(3)} | {('call', 'is_digit', ('sel', ch, C(i)), C(16)) for i in range(3, 7)}
+    _no_extra_refusals(rep, 'eisa-accept', 'aml::EISAName::new', g, expected, ranges, b['sp'])
     # emission = integer encoding of the stored value
     e1, I1, _ = emission(f, 'aml::EISAName'); e2, I2, _ = emission(f, 'u32')
     rep.analysed.add(f.method('Aml', 'aml::EISAName', 'to_aml_bytes'))
     ok, why = segs_equal(e1, rename(e2, {('a', 'self'): ('a', 'self.value')}))
     rep.ob('eisa-emit', 'aml::EISAName', ok and not I1.tops, 'EISAName is not emitted as the integer constant of its value: %s' % why, detail={'emitted': show_segs(e1)[:300]})
+
+def _no_extra_refusals(rep, rule, subj, guards, expected, ranges, sp):
+    """every refusal met on the evaluated path is one the specification asks for, or holds for every valid input"""
+    saved = sym.CTX; sym.CTX = ranges
+    try:
+        extra = []
+        for x in guards:
+            c = x['cond']
+            if c in expected: continue
+            c2 = rebuild(rebuild(c, lambda y: None), lambda y: None) if is_term(c) else c
+            if c2 == TRUE: continue
+            extra.append(show(c) if is_term(c) else repr(c))
+    finally:
+        sym.CTX = saved
+    rep.ob(rule, subj, not extra, '%s refuses inputs the specification accepts: extra condition(s) %s' % (subj, extra[:3]), sp=sp, detail={'extra_refusals': extra[:6]})
 
 def uuid(f, rep):
     b = f.bodies.get('aml::Uuid::new')
@@ -103,7 +121,9 @@ def uuid(f, rep):
         rep.ob('uuid-refuse', 'dash %d' % pos, has(cmp('eq', ('sel', ch, C(pos)), C(45))), 'no assertion of the separator at position %d' % pos, sp=b['sp'])
     for pos in [i for pr in UUID_MAP for i in pr]:
         rep.ob('uuid-refuse', 'hex %d' % pos, has(('call', 'is_digit', ('sel', ch, C(pos)), C(16))), 'a non-hex character at position %d is not refused' % pos, sp=b['sp'])
-    # the refusing assertions come before the value is built (tree order in Uuid::new)
+    # ... and nothing else is refused: every string of that shape must be accepted
+    expected = {cmp('eq', C(36), ('len', ch))} | {cmp('eq', ('sel', ch, C(pos)), C(45)) for pos in (8, 13, 18, 23)} | {('call', 'is_digit', ('sel', ch, C(pos)), C(16)) for pr in UUID_MAP for pos in pr}
+    _no_extra_refusals(rep, 'uuid-accept', 'aml::Uuid::new', g, expected, {d(i): (0, 15) for i in range(36)}, b['sp'])
     e1, I1, _ = emission(f, 'aml::Uuid'); e2, I2, _ = emission(f, 'aml::BufferData')
     rep.analysed.add(f.method('Aml', 'aml::Uuid', 'to_aml_bytes'))
     m = {('a', 'self.data'): ('a', 'self.name.data')}
